@@ -8,6 +8,7 @@ _Bool nondet_bool(void);
 
 typedef struct TaskQ_Slot QSlot_t;
 QSlot_t *g_qslots; unsigned long g_qcap, g_qn, g_moved; _Bool g_move_ok;
+unsigned g_pushes, g_st_pushes; unsigned long g_push_epoch, g_tick; _Bool g_push_multi, g_push_moved; unsigned g_joins_gc, g_ticks; _Bool g_joinable, g_join_after_push;
 unsigned long g_size;        /* tasks.size() */
 unsigned long g_uninvoked;   /* tasks in the vector whose reclaimer has not run yet */
 unsigned long g_lost;        /* tasks destroyed (clear / vector destructor) while their reclaimer had not run */
@@ -18,7 +19,8 @@ unsigned long g_cur_epoch;   /* lowest_epoch of the task most recently handed ou
 unsigned long g_cur_index;
 unsigned long g_invocations;
 static void vf_havoc_consume(void);
-static void vf_havoc_ghosts(void) { g_size = nondet_u64(); g_uninvoked = nondet_u64(); g_lost = 0; g_stop_seen = 0; g_invocations = 0; vf_havoc_consume(); }
+static void vf_havoc_ghosts(void) { g_size = nondet_u64(); g_uninvoked = nondet_u64(); g_lost = 0; g_stop_seen = 0; g_invocations = 0; vf_havoc_consume();
+  g_pushes = g_st_pushes = 0; g_push_epoch = nondet_u64(); g_tick = nondet_u64(); g_push_multi = 0; g_push_moved = 0; g_joins_gc = g_ticks = 0; g_joinable = nondet_bool(); g_join_after_push = 0; }
 
 /* ---- std::vector<ReclaimTask> abstraction ---- */
 void TaskVec_ctor_0(struct TaskVec *v) __CPROVER_assigns(g_size, g_uninvoked) __CPROVER_ensures(g_size == 0 && g_uninvoked == 0);
@@ -140,4 +142,38 @@ static void vf_havoc_consume(void) { }
 //@  __CPROVER_loop_invariant(*self->VF_CAP_lambda_garbage_collector_consume_reclaim_task_1_1 == __CPROVER_loop_entry(*self->VF_CAP_lambda_garbage_collector_consume_reclaim_task_1_1))
 //@  __CPROVER_decreases(g_qn - g_moved)
 //@end
+
+/* ---- retire / stop (jobs C10.retire*, C10.stop; VF_RETIRE): the producer side.  retire() may be called from any thread: it hands
+ * exactly one task carrying the reclaimer and the given epoch (the current tick for the one-argument form) to the queue through the
+ * MULTI-producer push; stop() pushes the stop marker (lowest_epoch == UINT64_MAX) the same way, once, and only then joins the
+ * collector thread, once; it does nothing when the collector is not running. */
+#ifdef VF_RETIRE
+static void pushed_task(struct GC_ReclaimTask *t, _Bool multi) { if (g_pushes < 1000) g_pushes++; g_push_epoch = t->lowest_epoch; g_push_multi = multi; }
+void TaskQ_push__1_0_0_GC_ReclaimTask_0(struct TaskQ *q, struct GC_ReclaimTask *t) { pushed_task(t, 1); }
+#ifdef VF_HAVE_TaskQ_push__0_0_0_GC_ReclaimTask_0
+void TaskQ_push__0_0_0_GC_ReclaimTask_0(struct TaskQ *q, struct GC_ReclaimTask *t) { pushed_task(t, 0); }      /* single-producer push: not safe for retire() */
+#endif
+uint64_t Epoch_tick(struct Epoch *e) { if (g_ticks < 1000) g_ticks++; return g_tick; }
+void R_ctor__RR(struct R *dst, struct R *src) { g_push_moved = 1; }
+void R_ctor__void(struct R *r) { }
+void R_dtor(struct R *r) { }
+_Bool std_thread_joinable(struct std_thread *t) { return g_joinable; }
+void std_thread_join(struct std_thread *t) { g_join_after_push = (g_pushes == 1); if (g_joins_gc < 1000) g_joins_gc++; }
+#define RETIRE_COMMON __CPROVER_assigns(g_pushes, g_push_epoch, g_push_multi, g_push_moved, g_ticks)
+void GC_retire__RR_u64(struct GC *gc, struct R *r, unsigned long epoch)
+__CPROVER_requires(__CPROVER_is_fresh(gc, sizeof(*gc)) && __CPROVER_is_fresh(r, sizeof(*r)) && g_pushes == 0 && !g_push_moved)
+RETIRE_COMMON
+__CPROVER_ensures(g_pushes == 1 && g_push_epoch == epoch && g_push_multi && g_push_moved)
+;
+void GC_retire__RR(struct GC *gc, struct R *r)
+__CPROVER_requires(__CPROVER_is_fresh(gc, sizeof(*gc)) && __CPROVER_is_fresh(r, sizeof(*r)) && g_pushes == 0 && !g_push_moved && g_ticks == 0)
+RETIRE_COMMON
+__CPROVER_ensures(g_pushes == 1 && g_ticks == 1 && g_push_epoch == g_tick && g_push_multi && g_push_moved)
+;
+void GC_stop(struct GC *gc)
+__CPROVER_requires(__CPROVER_is_fresh(gc, sizeof(*gc)) && g_pushes == 0 && g_joins_gc == 0)
+__CPROVER_assigns(g_pushes, g_push_epoch, g_push_multi, g_joins_gc, g_join_after_push)
+__CPROVER_ensures(g_joinable ? (g_pushes == 1 && g_push_epoch == 0xFFFFFFFFFFFFFFFFUL && g_push_multi && g_joins_gc == 1 && g_join_after_push) : (g_pushes == 0 && g_joins_gc == 0))
+;
+#endif
 #endif
